@@ -299,7 +299,26 @@ func c19views(r *rand.Rand, local int) []c19view {
 	return vs
 }
 
+// runC19Case runs one case; the client-side cross-check (as many clients see
+// their session end as the server closed) is believed only if it fails again on
+// a second run of the same case: a single stray session end (a yamux keep-alive
+// lost on an overloaded machine, a straggler of the previous case) does not
+// recur, a server that closes sessions it does not account for does.
 func runC19Case(rg *c19rig, c c19case, rnd *rand.Rand, sh *core.Shard) (sig, what string, inconclusive bool) {
+	sig, what, inconclusive = runC19CaseOnce(rg, c, rnd, sh)
+	for try := 0; sig == "shed-count-mismatch" && try < 2; try++ {
+		sh.Count("cross_check_reruns", 1)
+		first := what
+		sig, what, inconclusive = runC19CaseOnce(rg, c, rnd, sh)
+		if sig == "shed-count-mismatch" {
+			what += " (again on a second run; first: " + first + ")"
+			break
+		}
+	}
+	return
+}
+
+func runC19CaseOnce(rg *c19rig, c c19case, rnd *rand.Rand, sh *core.Shard) (sig, what string, inconclusive bool) {
 	if err := rg.ensure(c.Local, rnd); err != nil {
 		return "", "could not establish sessions: " + err.Error(), true
 	}
